@@ -901,11 +901,17 @@ pub fn dropbomb(a: &Args, rep: &mut Report) {
             ("predicate", format!("{pred_list:?}")),
             ("bomb", format!("key {bomb_key} object {bomb_id}")),
         ];
+        // half of the cases use retain instead: the bomb then sits on an element retain rejects
+        let use_retain = hr.chance(1, 2);
         set_drop_bomb(bomb_id);
         let map = &mut s.mon.map;
         let r = catch(|| {
-            let it = map.drain_filter(|k, _| pred.eval(k.val()));
-            drop(it);
+            if use_retain {
+                map.retain(|k, _| !pred.eval(k.val()));
+            } else {
+                let it = map.drain_filter(|k, _| pred.eval(k.val()));
+                drop(it);
+            }
         });
         let fired = !drop_bomb_armed();
         set_drop_bomb(0);
@@ -926,6 +932,36 @@ pub fn dropbomb(a: &Args, rep: &mut Report) {
                 std::mem::forget(s);
                 continue;
             }
+        }
+        if use_retain {
+            // retain was interrupted by the panicking destructor: elements it had not reached may
+            // stay, but nothing the predicate keeps may be lost, and the bomb element is gone
+            let lost: Vec<u64> = all.iter().copied().filter(|k| !pred.eval(*k) && !s.mon.map.contains_key(&T::mk(*k))).collect();
+            if !lost.is_empty() || s.mon.map.contains_key(&T::mk(bomb_key)) {
+                rep.direct_violation("C09", &tag, &format!("retain rejected key {bomb_key} whose destructor panicked (caught); afterwards {} elements the predicate keeps are gone ({:?}), bomb key still present: {}", lost.len(), crate::exec::abbreviate(&lost), s.mon.map.contains_key(&T::mk(bomb_key))), &body);
+                std::mem::forget(s);
+                continue;
+            }
+            let survivors: std::collections::BTreeSet<u64> = s.mon.map.keys().map(|k| k.val()).collect();
+            s.mon.model.retain(|k, _| survivors.contains(k));
+            s.mon.since_growth = None;
+            s.go(Op::new(Code::FullCheck));
+            for _ in 0..10 {
+                s.insert_new(&mut next);
+            }
+            s.go(Op::new(Code::FullCheck));
+            rep.bump("dropbomb_cases", 1);
+            rep.bump("dropbomb_retain_cases", 1);
+            if bomb_in_old {
+                rep.bump("dropbomb_in_old_table", 1);
+            }
+            let out = s.finish();
+            if out.viol.is_none() && split {
+                rep.nontrivial.insert(digest([history_digest(&out.ops), bomb_id, 1]));
+            }
+            rep.evaluations -= 1;
+            rep.record(&cfg, &tag, out, |_| false);
+            continue;
         }
         // every matching element must be gone, the others untouched
         for k in &matching {
